@@ -329,7 +329,7 @@ def run(prop, tier, seed):
         nsim = 60 if tier == "quick" else 600
         hists = gen_histories(maxi, p["kinds"], nsim, 8 if tier == "quick" else 12, seed, wd)
         builders = []
-        for cname, conc in concs:
+        for ci, (cname, conc) in enumerate(concs):
             b = Builder(prop, cname, conc, maxi)
             # (1) complete transition table of the property's endpoints
             if "att" in p["kinds"]:
@@ -356,15 +356,18 @@ def run(prop, tier, seed):
             if "att" in p["kinds"] and prop in ("C01", "C09"):
                 prs = table["attpairs"]
                 if tier == "quick":
-                    prs = rnd.sample(prs, 700)
-                for q in prs:
-                    b.add_history(None, [dict(op="att", s=q["s1"], t=q["t1"], root=q["r1"], v=q["v1"]),
-                                         dict(op="att", s=q["s2"], t=q["t2"], root=q["r2"], v=q["v2"])],
+                    # the pairs whose first request is signed are the ones that can expose a slashable second signature
+                    hot = sorted((q for q in prs if q["v1"] == "APPROVED"), key=lambda q: json.dumps(q, sort_keys=True))
+                    cold = sorted((q for q in prs if q["v1"] != "APPROVED"), key=lambda q: json.dumps(q, sort_keys=True))
+                    prs = rnd.sample(hot, min(len(hot), 900)) + rnd.sample(cold, 100)
+                for qi, q in enumerate(prs):
+                    b.add_history(None, [dict(op="att", s=q["s1"], t=q["t1"], root=q["r1"], v=q["v1"], by=("name", "key")[qi % 2]),
+                                         dict(op="att", s=q["s2"], t=q["t2"], root=q["r2"], v=q["v2"], by=("keypad", "name", "key")[(qi + ci) % 3])],
                                   (q["ns"], q["nt"], None), batchable=True)
             if "prop" in p["kinds"] and prop in ("C02", "C09"):
-                for q in table["proppairs"]:
-                    b.add_history(None, [dict(op="prop", slot=q["slot1"], root=q["r1"], v=q["v1"]),
-                                         dict(op="prop", slot=q["slot2"], root=q["r2"], v=q["v2"])], (None, None, q["np"]))
+                for qi, q in enumerate(table["proppairs"]):
+                    b.add_history(None, [dict(op="prop", slot=q["slot1"], root=q["r1"], v=q["v1"], by=("name", "key")[qi % 2]),
+                                         dict(op="prop", slot=q["slot2"], root=q["r2"], v=q["v2"], by=("keypad", "name", "key")[(qi + ci) % 3])], (None, None, q["np"]))
             b.flush()
             # (3) simulated histories (restarts, by name / by key, foreign domains)
             for h in hists:
